@@ -1,0 +1,11 @@
+//go:build verif
+
+package wal
+
+import "github.com/youzan/ZanRedisDB/common"
+
+// verifCrashPoint is a named crash point of the verification harness (/verif, property C06):
+// see common/verif_crash.go. Built only with -tags verif.
+func verifCrashPoint(name string, args ...uint64) {
+	common.VerifCrashPoint(name, args...)
+}
